@@ -31,6 +31,10 @@ configuration (wave 3): the further runs may build the adjustment object with ke
                run, and the object's X attribute read back after adjust() is summaries - observed (`x_attr_ok`).  Python side:
                `regressors_unmutated` (X attribute value-identical to summaries - observed computed before the fit, also after a
                second adjust()), `adjust_repeatable` (a second adjust() on the fitted object returns the same arrays).
+histories (wave 3b): ONE adjustment object used on 2-3 different samples in a row (other rows / parameters / masks / number of
+               parameters), through adjust_posterior or fit() + adjust(); one case per position of the history, so every call is
+               held against the model's result for ITS sample (the model has no memory across fits: `refit`, `run_history`,
+               C17_history_fresh); Coq clause: len(regression_models) = number of parameters of the last fit.
 """
 import math
 import numpy as np
@@ -208,7 +212,11 @@ class C17(PropCheck):
             'float64 samples of k+2..14 rows, half of them without any non-finite entry, with 2-3 configured runs each (run 0 always copy_X=False; half of the cases all-float64 '
             'with run 0 in the canonical listing), and 50% / 30% of the re-listed / re-stored runs of the other adjust streams are configured too; positive=True only when [1 X] of '
             'every fitted parameter has full column rank (unique non-negative slope). Every run (reference run included) reads back the X attribute after adjust() and calls '
-            'adjust() a second time.')
+            'adjust() a second time. '
+            'Object-reuse histories (every run, 40 quick / 500 thorough histories): 2-3 samples for one model that differ in the number of rows, the number of parameters, every value and the '
+            'non-finite entries; one case per position t >= 2 whose 1-2 runs each use ONE adjustment object (default or, 50%, configured) that was fitted / adjusted on samples 1..t-1 before, '
+            'every call through adjust_posterior or through fit() + adjust() by hand (both visited for earlier and last calls); the last call is checked like any run, plus len(regression_models) '
+            '= number of parameters of the last fit.')
     trusted = ('scikit-learn LinearRegression is an oracle: only "its (intercept_, coef_) solve the normal equations within 1e-9" is checked per case',
                'numpy.linalg.lstsq (centred data) as the oracle slope for the model side; numpy.argsort order is validated inside Coq (permutation + ascending)',
                'binary64 arithmetic is modelled exactly over Q: summaries - observed and the dot product are compared with tolerances (1e-12 formula, 1e-9 normal equations, 1e-8 oracle slope); generator keeps |values| <= 4 so nothing overflows',
@@ -435,6 +443,44 @@ class C17(PropCheck):
         self.bump('adj:cfg_stream')
         return case
 
+    def gen_adjust_hist(self):
+        """object-reuse histories: 2-3 samples for ONE model (same summaries / observed values) that differ in the number of
+        rows, the number of parameters, every value and the non-finite entries.  One case per position t >= 2 of the history:
+        its sample is sample t, and each of its 1-2 runs uses ONE adjustment object (default or configured) that has been
+        fitted / adjusted on samples 1..t-1 before, every call through adjust_posterior or through fit() + adjust() by
+        hand, so that every call of the history is compared with the model's result for ITS sample."""
+        r = self.rng
+        base = self.gen_adjust(cfgstream=True)
+        k, obs = len(base['obs']), base['obs']
+        hist = [base]
+        for _ in range(r.choice([1, 1, 2])):
+            other = self.gen_adjust(cfgstream=True)
+            while len(other['obs']) != k:
+                other = self.gen_adjust(cfgstream=True)
+            other['obs'] = obs
+            hist.append(other)
+        cases = []
+        for t in range(1, len(hist)):
+            case = dict(hist[t])
+            p = len(case['params'])
+            case['runs'] = self._make_runs(['real'] * k, ['real'] * p, obs, r.choice([1, 2]), native_first=False)
+            self._attach_cfgs(case, prob=0.5)
+            for run in case['runs']:
+                run['how'] = r.choice(['ap', 'fit'])
+                run['pre'] = [dict(summ=h['summ'], params=h['params'], use_names=h['use_names'], how=r.choice(['ap', 'fit']))
+                              for h in hist[:t]]
+                self.bump('adj:hist_earlier_fits=%d' % t)
+                self.bump('adj:hist_last_call=' + run['how'])
+                for pre in run['pre']:
+                    self.bump('adj:hist_earlier_call=' + pre['how'])
+                pp = len(run['pre'][-1]['params'])
+                self.bump('adj:hist_params_vs_previous=' + ('more' if p > pp else 'fewer' if p < pp else 'same'))
+                self.bump('adj:hist_rows_vs_previous=' + ('same' if len(case['summ']) == len(run['pre'][-1]['summ']) else 'different'))
+                self.bump('adj:hist_object=' + ('configured' if run.get('cfg') else 'default'))
+            self.bump('adj:hist_stream')
+            cases.append(case)
+        return cases
+
     def gen_adjust(self, malformed=False, cross=False, cfgstream=False):
         r = self.rng
         k = r.randint(1, 3)
@@ -634,6 +680,7 @@ class C17(PropCheck):
         nx, nnf = (60, 90) if self.tier == 'quick' else (800, 1200)
         nst, nz = (100, 100) if self.tier == 'quick' else (700, 1000)
         ncf = 60 if self.tier == 'quick' else 800
+        nh = 40 if self.tier == 'quick' else 500
         for _ in range(na):
             yield self.gen_adjust()
         for _ in range(nx):
@@ -642,6 +689,9 @@ class C17(PropCheck):
             yield self.gen_adjust_store()
         for _ in range(ncf):
             yield self.gen_adjust_cfg()
+        for _ in range(nh):
+            for case in self.gen_adjust_hist():
+                yield case
         for _ in range(nma):
             yield self.gen_adjust(malformed=True)
         for _ in range(nc):
@@ -699,8 +749,29 @@ class C17(PropCheck):
         with np.errstate(all='ignore'):
             X0 = np.stack([outputs[snames[j]] for j in perm], axis=1) - np.stack([m[snames[j]].observed for j in perm], axis=1)
         d = {}
+        # history (wave 3b): the SAME adjustment object is first fitted / adjusted on the earlier samples of the run (other
+        # summaries, other thetas, other finite masks, possibly another number of rows and of parameters), each through
+        # adjust_posterior or through fit() + adjust() by hand; then comes the case's own sample
+        if spec == 'instance':
+            for pre in run.get('pre', []):
+                pn = ['t%d' % q for q in range(len(pre['params']))]
+                po = {name: store(pre['params'][q]) for q, name in enumerate(pn)}
+                po.update({snames[j]: store([row[j] for row in pre['summ']]) for j in range(k)})
+                ps = Sample(method_name='Rejection', outputs=po, parameter_names=pn)
+                try:
+                    if pre.get('how') == 'fit':
+                        adj.fit(ps, m, [snames[j] for j in perm], pn if pre.get('use_names') else None)
+                        adj.adjust()
+                    else:
+                        adjust_posterior(ps, m, [snames[j] for j in perm], pn if pre.get('use_names') else None, adj)
+                except Exception:
+                    pass        # an earlier sample without usable rows: the object is simply used again
         try:
-            res = adjust_posterior(sample, m, [snames[j] for j in perm], pnames if use_names else None, adj)
+            if spec == 'instance' and run.get('how') == 'fit':
+                adj.fit(sample, m, [snames[j] for j in perm], pnames if use_names else None)
+                res = adj.adjust()
+            else:
+                res = adjust_posterior(sample, m, [snames[j] for j in perm], pnames if use_names else None, adj)
         except Exception as e:
             d['error'] = '%s: %s' % (type(e).__name__, str(e)[:200])
             res = None
@@ -718,6 +789,7 @@ class C17(PropCheck):
         if spec == 'instance':
             d['coef'] = [[float(x) for x in np.atleast_1d(rm.coef_).ravel()] for rm in adj.regression_models]
             d['icpt'] = [float(np.asarray(rm.intercept_).ravel()[0]) for rm in adj.regression_models]
+            d['nmodels'] = len(adj.regression_models)
             # the object's own stored regressors (public attribute X) after fit + adjust ...
             Xa = np.asarray(adj.X)
             d['X'] = [[enc(v) for v in row] for row in Xa] if Xa.ndim == 2 else None
@@ -1147,14 +1219,15 @@ class C17(PropCheck):
             for run, dr in zip(case.get('runs', []), out.get('runs', [])):
                 ri, rc, r0 = impl_terms(dr)
                 runs.append('{| r_perm := %s; r_sdt := %s; r_odt := %s; r_pdt := %s; r_coef := %s; r_icpt := %s; r_out := %s; '
-                            'r_cfg := %s; r_oracle := %s; r_X := %s |}'
+                            'r_cfg := %s; r_oracle := %s; r_X := %s; r_prev := %s; r_nmodels := %s |}'
                             % (clist([cnat(j) for j in run['perm']]), clist([COQDT[x] for x in run['sdt']]),
                                clist([COQDT[x] for x in run['odt']]), clist([COQDT[x] for x in run['pdt']]), rc, r0, ri,
                                ccfg(run.get('cfg')),
-                               clist([cql(b) for b in dr['oracle_b']]) if dr['oracle_own'] else '[]', x_term(dr)))
+                               clist([cql(b) for b in dr['oracle_b']]) if dr['oracle_own'] else '[]', x_term(dr),
+                               cnat(len(run.get('pre', []))), cnat(dr.get('nmodels', 0))))
             return ('CAdj {| a_summ := %s; a_obs := %s; a_params := %s; a_oracle := %s; a_impl_coef := %s; '
-                    'a_impl_icpt := %s; a_impl_out := %s; a_impl_X := %s; a_runs := %s |}'
-                    % (rows, obs, pars, orc, coef, icpt, impl, x_term(out), clist(runs)))
+                    'a_impl_icpt := %s; a_impl_out := %s; a_impl_X := %s; a_impl_nmodels := %s; a_runs := %s |}'
+                    % (rows, obs, pars, orc, coef, icpt, impl, x_term(out), cnat(out.get('nmodels', 0)), clist(runs)))
         samples = clist(['(%s, %s)' % (cql(d), cq(ns)) for d, ns in surrogate(case['samples'])])
         pri = 'None' if case['priors'] is None else '(Some %s)' % cql(case['priors'])
         order = clist([cnat(j) for j in out['order']])
